@@ -417,6 +417,31 @@ func main() {
 		res := runRound(r.Seed*100003+int64(i), p.transport, p.writers, p.writes, p.delays)
 		record(r, res, p, "plain")
 	}
+	// neighbouring connections: three connections of one process (slow and scripted sockets, so that socket writes are
+	// in flight for a while) are written to at the same time; each stream is judged on its own, as above.  What the write
+	// path shares between connections (pooled buffers, package-level scratch space) must not show in any of them.
+	groups := r.Pick(40, 600)
+	for g := 0; g < groups; g++ {
+		var wg sync.WaitGroup
+		res := make([]roundResult, 3)
+		ps := []plan{{transport: "slow", writers: 2 + g%3, writes: 6, delays: g%2 == 0}, {transport: "script", writers: 3, writes: 8, delays: true}, {transport: "slow", writers: 2, writes: 5 + g%4, delays: false}}
+		for k := range ps {
+			wg.Add(1)
+			go func(k int) {
+				defer wg.Done()
+				res[k] = runRound(r.Seed*700001+int64(g*3+k), ps[k].transport, ps[k].writers, ps[k].writes, ps[k].delays)
+			}(k)
+		}
+		wg.Wait()
+		for k := range ps {
+			if res[k].Sig != "" && res[k].Sig != "inconclusive" {
+				res[k].Sig = "neighbours:" + res[k].Sig
+				res[k].What = "(three connections written to at the same time) " + res[k].What
+			}
+			record(r, res[k], ps[k], "plain")
+			r.Count("rounds_with_neighbouring_connections", 1)
+		}
+	}
 	// harness B: real transport, responses and notifications meeting on every connection
 	fullStack(r, "plain", r.Pick(2, 12))
 	// race detector child (harness A and B)
@@ -429,6 +454,7 @@ func main() {
 	r.Count("writes_of_10_to_70_frames", int(largeWrites.Load()))
 	r.Floor("writes_of_10_to_70_frames", int(largeWrites.Load()), 20)
 	r.Floor("keep_alive_messages_between_payloads", int(r.Counter("keep_alive_messages_between_payloads")), rounds)
+	r.Floor("rounds_with_neighbouring_connections", int(r.Counter("rounds_with_neighbouring_connections")), groups*3)
 	r.Floor("rounds_with_overlapping_writes", int(r.Counter("rounds_with_overlapping_writes")), rounds/2)
 	r.Floor("overlapping_write_pairs", int(r.Counter("overlapping_write_pairs")), 2000)
 	r.Floor("distinct arrival orders", r.DistinctN("arrival_order"), rounds/4)
